@@ -48,6 +48,40 @@ class Ctx:
         return self._cache[key]
 
 
+def isolate_rules() -> None:
+    """
+    Wrap every rule function (rNN_M in sa/rules/*) so that an AnalysisError raised by one rule
+    does not hide the verdicts of the others: the rule yields an empty result, the message is
+    kept in report.ANALYSIS_ERRORS and the run still ends with exit 2 unless another rule
+    reports a violation (exit 1, the unanalysed rule is mentioned).
+    """
+    import functools
+    import re
+    import types
+    wrapped: dict[int, object] = {}
+    mods = [importlib.import_module(f'sa.rules.{m}') for m in sorted(set(RULE_MODULES.values()))]
+    for mod in mods:
+        for name, fn in list(vars(mod).items()):
+            if not isinstance(fn, types.FunctionType) or \
+                    not re.fullmatch(r'r\d\d_\d+', fn.__name__):
+                continue
+            if id(fn) not in wrapped:
+                rule = 'R' + fn.__name__[1:].replace('_', '.')
+
+                def make(fn=fn, rule=rule):   # type: ignore[no-untyped-def]
+                    @functools.wraps(fn)
+                    def guarded(*a, **k):     # type: ignore[no-untyped-def]
+                        try:
+                            return fn(*a, **k)
+                        except AnalysisError as err:
+                            report.ANALYSIS_ERRORS.append((k.get('rule', rule), str(err)))
+                            return report.RuleResult(k.get('rule', rule), 'NOT-ANALYSED',
+                                                     f'not analysed: {err}')
+                    return guarded
+                wrapped[id(fn)] = make()
+            setattr(mod, name, wrapped[id(fn)])
+
+
 def main() -> int:
     ap = argparse.ArgumentParser()
     ap.add_argument('property')
@@ -61,6 +95,7 @@ def main() -> int:
         return 2
     try:
         ctx = Ctx(args.tier)
+        isolate_rules()
         mod = importlib.import_module(f'sa.rules.{RULE_MODULES[prop]}')
         out = mod.run(ctx)
         for r in out['results']:
